@@ -2287,7 +2287,9 @@ mod tests {
 #[allow(missing_docs)]
 pub mod verif_hooks {
 	use super::*;
+	use crate::types::payment::PaymentHash;
 	use crate::util::logger::Record;
+	use bitcoin::hashes::Hash;
 
 	pub struct FixedFee(pub u32);
 	impl FeeEstimator for FixedFee {
@@ -2305,6 +2307,129 @@ pub mod verif_hooks {
 			1 => FeerateStrategy::HighestOfPreviousOrNew,
 			_ => FeerateStrategy::ForceBump,
 		}
+	}
+
+	/// (kind, cltv_expiry, has_preimage, amount_sat); kind follows the declaration order of
+	/// `PackageSolvingData`: 0 RevokedOutput, 1 RevokedHTLCOutput, 2 CounterpartyOfferedHTLCOutput,
+	/// 3 CounterpartyReceivedHTLCOutput, 4 HolderHTLCOutput, 5 HolderFundingOutput
+	pub type InputSpec = (u8, u32, bool, u64);
+
+	fn solving_data(spec: &InputSpec) -> PackageSolvingData {
+		let (kind, cltv_expiry, has_preimage, amount_sat) = *spec;
+		let pk = PublicKey::from_slice(&[2; 33]).unwrap();
+		let sk = SecretKey::from_slice(&[1; 32]).unwrap();
+		let htlc = |offered: bool| HTLCOutputInCommitment {
+			offered,
+			amount_msat: amount_sat * 1000,
+			cltv_expiry,
+			payment_hash: PaymentHash([1; 32]),
+			transaction_output_index: None,
+		};
+		let anchors = ChannelTypeFeatures::anchors_zero_htlc_fee_and_dependencies();
+		match kind {
+			0 => PackageSolvingData::RevokedOutput(RevokedOutput {
+				per_commitment_point: pk,
+				counterparty_delayed_payment_base_key: DelayedPaymentBasepoint(pk),
+				counterparty_htlc_base_key: HtlcBasepoint(pk),
+				per_commitment_key: sk,
+				weight: WEIGHT_REVOKED_OUTPUT,
+				amount: Amount::from_sat(amount_sat),
+				on_counterparty_tx_csv: 144,
+				channel_parameters: None,
+				outpoint_confirmation_height: None,
+			}),
+			1 => PackageSolvingData::RevokedHTLCOutput(RevokedHTLCOutput {
+				per_commitment_point: pk,
+				counterparty_delayed_payment_base_key: DelayedPaymentBasepoint(pk),
+				counterparty_htlc_base_key: HtlcBasepoint(pk),
+				per_commitment_key: sk,
+				weight: 0,
+				amount: amount_sat,
+				htlc: htlc(false),
+				channel_parameters: None,
+				outpoint_confirmation_height: None,
+			}),
+			2 => PackageSolvingData::CounterpartyOfferedHTLCOutput(CounterpartyOfferedHTLCOutput {
+				per_commitment_point: pk,
+				counterparty_delayed_payment_base_key: DelayedPaymentBasepoint(pk),
+				counterparty_htlc_base_key: HtlcBasepoint(pk),
+				preimage: PaymentPreimage([2; 32]),
+				htlc: htlc(false),
+				channel_type_features: anchors.clone(),
+				channel_parameters: None,
+				outpoint_confirmation_height: None,
+			}),
+			3 => PackageSolvingData::CounterpartyReceivedHTLCOutput(CounterpartyReceivedHTLCOutput {
+				per_commitment_point: pk,
+				counterparty_delayed_payment_base_key: DelayedPaymentBasepoint(pk),
+				counterparty_htlc_base_key: HtlcBasepoint(pk),
+				htlc: htlc(true),
+				channel_type_features: anchors.clone(),
+				channel_parameters: None,
+				outpoint_confirmation_height: None,
+			}),
+			4 => PackageSolvingData::HolderHTLCOutput(HolderHTLCOutput {
+				preimage: if has_preimage { Some(PaymentPreimage([2; 32])) } else { None },
+				amount_msat: amount_sat * 1000,
+				cltv_expiry,
+				channel_type_features: anchors.clone(),
+				htlc_descriptor: None,
+				outpoint_confirmation_height: None,
+			}),
+			_ => PackageSolvingData::HolderFundingOutput(HolderFundingOutput {
+				funding_redeemscript: ScriptBuf::new(),
+				funding_amount_sats: Some(amount_sat),
+				channel_type_features: anchors.clone(),
+				commitment_tx: None,
+				channel_parameters: None,
+			}),
+		}
+	}
+
+	pub fn template(
+		inputs: &[InputSpec], counterparty_spendable_height: u32, feerate_previous: u64,
+	) -> PackageTemplate {
+		PackageTemplate {
+			inputs: inputs
+				.iter()
+				.enumerate()
+				.map(|(i, spec)| {
+					(
+						BitcoinOutPoint { txid: Txid::from_byte_array([i as u8; 32]), vout: i as u32 },
+						solving_data(spec),
+					)
+				})
+				.collect(),
+			malleability: PackageMalleability::Malleable(AggregationCluster::Unpinnable),
+			counterparty_spendable_height,
+			feerate_previous,
+			height_timer: 0,
+		}
+	}
+
+	pub fn get_height_timer(
+		inputs: &[InputSpec], counterparty_spendable_height: u32, current_height: u32,
+	) -> u32 {
+		template(inputs, counterparty_spendable_height, 0).get_height_timer(current_height)
+	}
+
+	pub fn package_locktime(inputs: &[InputSpec], current_height: u32) -> u32 {
+		template(inputs, 0, 0).package_locktime(current_height)
+	}
+
+	pub fn compute_package_output(
+		inputs: &[InputSpec], predicted_weight: u64, dust_limit_sats: u64, strategy_tag: u8,
+		estimate: u32, feerate_previous: u64,
+	) -> Option<(u64, u64)> {
+		let est = LowerBoundedFeeEstimator::new(FixedFee(estimate));
+		template(inputs, 0, feerate_previous).compute_package_output(
+			predicted_weight,
+			dust_limit_sats,
+			&strategy(strategy_tag),
+			ConfirmationTarget::UrgentOnChainSweep,
+			&est,
+			&NoLog,
+		)
 	}
 
 	pub fn compute_fee_from_spent_amounts(
